@@ -758,8 +758,11 @@ func (ro *RedisOutput) rdbReplayBisync(ctx context.Context, runID string, fullSy
 						return err
 					}
 				}
+				// the bisync control keys found in the source's snapshot belong to other
+				// links; the output filter of a bisync link does not list them (see NewRedisOutput)
 				if ro.outFilter.FilterKey(string(e.Key)) ||
-					ro.outFilter.FilterSlot(string(e.Key)) {
+					ro.outFilter.FilterSlot(string(e.Key)) ||
+					isBisyncNamespaceKey(string(e.Key)) {
 					filterOut = true
 				}
 			}
